@@ -119,6 +119,12 @@ static SCARCE: std::sync::atomic::AtomicBool = std::sync::atomic::AtomicBool::ne
 
 fn run_case(cx: &CaseCtx, rep: &mut Report) {
 	let mut rng = cx.rng();
+	// every third case runs as a process that logs at trace level (what `-vvvv` turns on)
+	let tracing = cx.case % 3 == 2;
+	guard::trace_logging(tracing);
+	if tracing {
+		rep.count("cases_with_trace_logging", 1);
+	}
 	let combos = (KINDS.len() * CALLERS.len() * 2) as u64;
 	let c = cx.case % combos;
 	let kind = KINDS[(c % 4) as usize];
